@@ -276,6 +276,28 @@ def cli(ctx):
             if not (outs[0] == outs[1] == outs[2]):
                 ctx.violation("rg --mmap / --no-mmap / stdin print different results",
                               dict(kind="cli", flags=flags, pattern=pat, encoding=enc, data=repr(data), outs=[repr(o) for o in outs]))
+    # files whose stat() size says nothing about their content (procfs): by path (mmap or not) and through stdin
+    for pf, pat in (("/proc/version", "Linux"), ("/proc/filesystems", "proc"), ("/proc/self/status", "Name")):
+        try:
+            content = open(pf, "rb").read()
+        except OSError:
+            continue
+        if not content or os.stat(pf).st_size != 0:
+            continue
+        base = [vlib.RG, "--no-config", "--color", "never", "--no-heading", "-N", "-I", "-e", pat]
+        outs = []
+        for mode in ("--mmap", "--no-mmap"):
+            p = subprocess.run(base + [mode, pf], stdin=subprocess.DEVNULL, stdout=subprocess.PIPE, stderr=subprocess.PIPE)
+            outs.append((p.returncode, p.stdout))
+        p = subprocess.run(base + ["-"], input=content, stdout=subprocess.PIPE, stderr=subprocess.PIPE)
+        outs.append((p.returncode, p.stdout))
+        runs += 3
+        if pf != "/proc/self/status" and not (outs[0] == outs[1] == outs[2]):
+            ctx.violation("a file whose stat size is 0 but which has content gives different results by path and through stdin",
+                          dict(kind="cli-procfs", file=pf, pattern=pat, outs=[repr(o) for o in outs]))
+        if pf == "/proc/self/status" and not (outs[0][0] == outs[1][0] == 0):
+            ctx.violation("a procfs file with content is not searched when named by path",
+                          dict(kind="cli-procfs", file=pf, pattern=pat, outs=[repr(o) for o in outs]))
     ctx.cov["cli_runs"] = runs
 
 
